@@ -21,3 +21,27 @@ let () =
       let src = bytes_of_hex (List.hd a) in
       let n i = D_0tree.n_of_string (List.nth a i) in
       pr_opt hex_of_bytes (M.slice (M.lines_of src) { M.sl = n 1; sc = n 2; el = n 3; ec = n 4 }))
+
+(* sp_cover <srchex> <tree tokens> -> ok <number of nodes> <class>=<nodes> ...
+   the masking area of the known-finding classes: for every class the number of nodes of this tree that the
+   class predicate of Spec/SourcePosKnown.v accepts for SOME clause (B N S V), whether or not the node fails
+   anything; used by tools/sp_survey.py cover, not by the checks *)
+let () =
+  register "sp_cover" (fun a ->
+      let src = bytes_of_hex (List.hd a) in
+      let (t, _) = D_0tree.parse_tree (List.tl a) in
+      let l = M.lines_of src in
+      let names = List.map (fun (nm, _) -> ocaml_string_of_coq nm) M.classes in
+      let counts = Array.make (List.length names) 0 in
+      let total = ref 0 in
+      let rec walk anc prev n =
+        incr total;
+        List.iteri (fun i (_, p) ->
+            if List.exists (fun c -> p l { M.f_clause = c; f_path = []; f_node = n; f_anc = anc; f_prev = prev })
+                 [M.CBounds; M.CNest; M.CSibling; M.CSlice]
+            then counts.(i) <- counts.(i) + 1) M.classes;
+        let ch = (match n with M.Node (_, _, ch) -> ch) in
+        ignore (List.fold_left (fun pv c -> walk (n :: anc) pv c; Some c) None ch) in
+      walk [] None t;
+      "ok " ^ string_of_int !total ^
+      String.concat "" (List.mapi (fun i nm -> if counts.(i) > 0 then " " ^ nm ^ "=" ^ string_of_int counts.(i) else "") names))
